@@ -54,6 +54,9 @@ func main() {
 		var c struct{ Features []string }
 		run.LoadReplay(&c)
 		fs := features()
+		for i := range fs {
+			fs[i].idx = i
+		}
 		var pick []feature
 		for _, n := range c.Features {
 			for _, f := range fs {
@@ -70,6 +73,9 @@ func main() {
 		k = 2
 	}
 	fs := features()
+	for i := range fs {
+		fs[i].idx = i
+	}
 	var jobs [][]feature
 	sizes := make([]int, len(fs))
 	for i := range sizes {
@@ -152,7 +158,7 @@ func (e *env) one(fs []feature, verbose bool) {
 	d := base()
 	crlf := false
 	for _, f := range fs {
-		f.apply(d)
+		d.applyUnique(f, f.idx)
 		crlf = crlf || f.crlf
 	}
 	text := d.text(crlf)
